@@ -207,6 +207,7 @@ def run(idx: ProgramIndex, rep: Report, tier: str):
         "C03-5": "argument-ignoring memo entries that use their argument are validated against the current argument by every consumer",
         "C03-6": "temporary mutation of shared module state is restored on every normal path",
         "C03-8": "no method overwrites a tensor owned by the object (cache entry, parameter, buffer, training data) in place, except the `.data` initialisation idiom and flag fill_()",
+        "C03-9": "branches on the value-neutral setting detach_test_caches differ by .detach() only (what justifies leaving it out of every cache key)",
         "C03-7": "memo primitives: the three key builders agree, args/kwargs enter the key, clear_cache_hook rebinds to an empty dict",
     }
     for k, v in rules.items():
@@ -219,6 +220,7 @@ def run(idx: ProgramIndex, rep: Report, tier: str):
     ignore_args(idx, rep)
     temp_mutation(idx, rep, tier)
     memo_primitives(idx, rep)
+    detach_neutral(idx, rep)
     state_not_overwritten(idx, rep)
     rep.assume("regulariser/precision settings (variational_cholesky_jitter, cholesky_jitter, _linalg_dtype_cholesky) are not changed between two evaluation-mode calls on the same model: gpytorch caches Cholesky factors computed with them by design")
     rep.assume("settings read only inside linear_operator (CG vs Cholesky, Lanczos rank) select between algorithms for the same quantity (the 'iterative paths at tight tolerance' caveat of C01)")
@@ -1127,3 +1129,52 @@ def state_not_overwritten(idx: ProgramIndex, rep: Report):
                 continue
             funcs.append(m)
     aliasing_obligations(idx, rep, "C03-8", funcs, 400, "methods interpreted for in-place updates of object-owned tensors", only_state=True)
+
+
+# ---- C03-9: value-neutral settings are value neutral --------------------------------------------------------------------
+def detach_neutral(idx: ProgramIndex, rep: Report, rule: str = "C03-9", only_functions: Optional[Set[str]] = None, floor: int = 8):
+    """`detach_test_caches` is listed as value neutral (it is not part of any cache key): that is sound only if every branch on it
+    changes nothing but autograd attachment.  For every `if settings.detach_test_caches.on()/off()`: a one-armed branch may only
+    re-bind names to their own `.detach()` (or return `x.detach()`); the two arms of a two-armed branch must be equal after
+    removing `.detach()` calls."""
+    import copy
+
+    class Strip(ast.NodeTransformer):
+        def visit_Call(self, n: ast.Call):
+            self.generic_visit(n)
+            if isinstance(n.func, ast.Attribute) and n.func.attr in ("detach", "detach_") and not n.args and not n.keywords:
+                return n.func.value
+            return n
+
+    def strip(stmts) -> List[str]:
+        out = []
+        for st in stmts:
+            t = Strip().visit(copy.deepcopy(st))
+            # `x = x` left over from `x = x.detach()` is a no-op
+            if isinstance(t, ast.Assign) and len(t.targets) == 1 and ast.dump(t.targets[0]).replace("Store()", "Load()") == ast.dump(t.value):
+                continue
+            out.append(ast.dump(t))
+        return out
+
+    n = 0
+    for fi in sorted(idx.all_functions(), key=lambda f: (f.module.name, f.qualname)):
+        if only_functions is not None and fi.name not in only_functions:
+            continue
+        k = 0
+        for node in ast.walk(fi.node):
+            if not isinstance(node, ast.If):
+                continue
+            t = node.test
+            while isinstance(t, ast.UnaryOp) and isinstance(t.op, ast.Not):
+                t = t.operand
+            if not (isinstance(t, ast.Call) and isinstance(t.func, ast.Attribute) and t.func.attr in ("on", "off") and (chain(t.func.value) or "").endswith("detach_test_caches")):
+                continue
+            n += 1
+            k += 1
+            a, b = strip(node.body), strip(node.orelse)
+            ok = a == b
+            rep.add(rule, "%s:%s[detach_test_caches branch %d]" % (fi.module.name, fi.qualname, k), "%s:%d" % (fi.module.relpath, node.lineno), ok,
+                    "both arms compute the same values (they differ by .detach() only)" if ok else
+                    "the arms of the branch on detach_test_caches differ by more than .detach(): `%s` vs `%s` - the setting is treated as value neutral (no cache is keyed by it), so the cached numbers must not depend on it" % (
+                        "; ".join(" ".join(src(s_).split()) for s_ in node.body)[:70], "; ".join(" ".join(src(s_).split()) for s_ in node.orelse)[:70] or "<nothing>"), {})
+    rep.floor(rule, "branches on detach_test_caches", n, floor)
